@@ -310,6 +310,33 @@ def run_case(case):
             raise HarnessError("resolver disagrees with model under the true root (collision or oracle bug)")
         if root == ref2.root_hash and want != m2.get(key, b""):
             raise HarnessError("resolver disagrees with model 2 under the true root")
+    # ---- (4b) two verifications overlapping in time: the proof is a generator whose producer
+    # verifies another proof (of key2 in T2) while the first one is being consumed
+    other_proof = impl("get_proof-never-raises", t2.get_proof, key2)
+    inner = []
+
+    def lazy_proof():
+        for i, node in enumerate(copy.deepcopy(proof)):
+            if i == len(proof) // 2:
+                inner.append(HexaryTrie.get_from_proof(ref2.root_hash, key2, copy.deepcopy(other_proof)))
+            yield node
+
+    got = impl("proof-complete", HexaryTrie.get_from_proof, t1.root_hash, key, lazy_proof(), allowed=())
+    expect_eq("proof-complete", got, m1.get(key, b""), f"get_from_proof of a lazily produced proof for {key!r} "
+              "(another verification ran in between)")
+    if inner:
+        expect_eq("proof-complete", inner[0], m2.get(key2, b""), f"the verification of {key2!r} that ran in between")
+    # and a proof with the last node withheld must not profit from the other verification
+    if len(proof) >= 2 and _hash(proof[-1]) in {h for _, h in ref1.hashed_on_path(kn)}:
+        def lazy_short():
+            for i, node in enumerate(copy.deepcopy(proof[:-1])):
+                if i == 0:
+                    HexaryTrie.get_from_proof(t1.root_hash, key, copy.deepcopy(proof))
+                yield node
+        got = impl("withheld-node-rejected", HexaryTrie.get_from_proof, t1.root_hash, key, lazy_short(), allowed=(BadTrieProof,))
+        expect("withheld-node-rejected", not isinstance(got, bytes),
+               lambda: f"an incomplete lazily produced proof for {key!r} was accepted after a full one was verified in between")
+
     # ---- (5) the caller scribbles on the returned proof; later proofs must be unaffected ----
     for node in proof:
         if isinstance(node, list) and node:
